@@ -221,6 +221,17 @@ def agree(impl, model):
     if model.startswith("ANYOF "):
         alts = [a.strip() for a in model[6:].split(" || ")]
         return impl.strip() in alts
+    if model.startswith("ANYOF~ "):
+        # the model's enumeration of DFS root orders is incomplete (more than six fixture names): an answer that is
+        # not literally among the alternatives agrees when every cycle it reports is about a set of fixtures some
+        # alternative reports a cycle about (another rotation / anchor of the same cycle)
+        body, _, sets = model[7:].partition(" ## ")
+        alts = [a.strip() for a in body.split(" || ")]
+        if impl.strip() in alts:
+            return True
+        known = {frozenset(x.strip().split("+")) for x in sets.split(" ; ") if x.strip()}
+        mine = [frozenset(set(c.split("@")[0].split(">"))) for c in impl.strip().strip("[]").split() if ">" in c]
+        return all(m in known for m in mine) and (bool(mine) or "[]" in alts)
     return impl == model
 
 
